@@ -17,7 +17,7 @@ type access struct {
 type lockState struct {
 	shared     map[*Value]string
 	sharedMaps map[*MapV]string
-	held       map[*Value]string // mutex cell -> "W" or "R"
+	held       map[heldKey]string // (mutex cell, thread) -> "W" or "R"
 	names      map[*Value]string // mutex cell -> name
 	on         bool
 }
@@ -112,7 +112,11 @@ func (e *Engine) markSharedIn(v Value, t types.Type, path string) {
 
 func (e *Engine) lockStr() string {
 	var xs []string
-	for m, mode := range e.ls.held {
+	for hk, mode := range e.ls.held {
+		if hk.t != e.tid() {
+			continue
+		}
+		m := hk.m
 		n := e.ls.names[m]
 		if n == "" {
 			n = fmt.Sprintf("mutex@%p", m)
